@@ -414,6 +414,21 @@ def insertDay (d : Day) : List Day → List Day
 
 def Builder.build (b : Builder) : List Day := b.foldr insertDay []
 
+/-- the directives of a day in the order `journal.Print` shows them -/
+def Day.all (d : Day) : List Dir := d.prices ++ d.openings ++ d.transactions ++ d.assertions ++ d.closings
+
+/-- all directives of a list of days, in printed order -/
+def printed (days : List Day) : List Dir := days.flatMap Day.all
+
+/-- the two lists hold the same directives, each equally often -/
+def sameDirs (expected observed : List Dir) : Bool := (expected ++ observed).all (fun d => expected.count d == observed.count d)
+
+def datesSorted (l : List Dir) : Bool := decide (l.Pairwise (fun a b => a.date ≤ b.date))
+
+/-- **property predicate** on an observed journal (the directives `knut print` shows, in printed order) against
+the directives of all files: nothing lost, nothing duplicated, days in date order -/
+def censusOK (expected observed : List Dir) : Bool := sameDirs expected observed && datesSorted observed
+
 /-- outcome of `journal.FromPath`: an error, or the journal's days for the given arrival order
 (`perm` permutes the loaded files; any list that is not a permutation index is ignored) -/
 def loadOutcome (fs : FS) (root : Nat) : Except (List LoadErr) (List (List Dir)) :=
